@@ -41,6 +41,18 @@ class Check:
     def setup(self):
         pass
 
+    def warm(self):
+        """Import everything a run needs, in the process that forks the
+        block children (imports only - nothing of the SUT is executed)."""
+        core.import_sut()
+        import oslo_utils.excutils          # noqa: F401
+        import oslo_utils.fileutils         # noqa: F401
+        import oslo_utils.fixture           # noqa: F401
+        import oslo_utils.timeutils         # noqa: F401
+        import oslo_utils.imageutils.cli    # noqa: F401
+        from sim import imgsim
+        imgsim.fi()
+
     def gen(self, streams, tier, index, total):
         raise NotImplementedError
 
@@ -84,7 +96,9 @@ _WORKER = {}
 def _worker_init(pid):
     chk = load_check(pid)
     chk.setup()
+    chk.warm()
     _WORKER['chk'] = chk
+    core.claim_worker_scratch()
     faulthandler.enable()
     signal.signal(signal.SIGALRM, _alarm)
 
@@ -466,6 +480,15 @@ def fresh_replay_ok(pid, path):
 # ------------------------------------------------------------- main
 
 def main(argv=None):
+    core.make_scratch_root()
+    core.claim_worker_scratch()
+    try:
+        return _main(argv)
+    finally:
+        core.drop_scratch_root()
+
+
+def _main(argv=None):
     ap = argparse.ArgumentParser()
     ap.add_argument('pid')
     ap.add_argument('--tier', default=None)
